@@ -48,6 +48,12 @@ static std::vector<i128> extents(uint64_t off, size_t elsize, mon::Rng& rng)
     v.push_back(two64 / elsize + toend + d);         // wraps back onto a legal-looking byte count
     v.push_back(two64 / elsize + 1 + d);
   }
+  // counts whose product with the element size wraps 64 bits to a value that is NOT smaller than the count itself (an
+  // addition-style wrap test "product >= count" lets them through): just above 2^64/3, 2*2^64/3, 2^64/7, k*2^64/elsize + small
+  for (i128 d = 0; d <= 2; d++) {
+    v.push_back(two64 / 3 + 1 + d); v.push_back(2 * two64 / 3 + 1 + d); v.push_back(two64 / 7 + 1 + d); v.push_back(3 * two64 / 7 + 1 + d);
+    for (i128 k = 1; k < static_cast<i128>(elsize); k++) { v.push_back(k * two64 / elsize + 1 + d); v.push_back(k * two64 / elsize + toend + d); }
+  }
   for (int i = 0; i < mon::tier(6, 60); i++) { v.push_back(rng.below(static_cast<uint64_t>(toend > 0 ? toend : 1) + 4)); v.push_back(static_cast<i128>(rng.interesting())); }
   std::vector<i128> out;
   for (auto x : v) if (x >= 0 && x < two64) out.push_back(x);
